@@ -472,6 +472,10 @@ impl Property for C18 {
         };
         let case = normalise(&case);
         let mut r = RunResult::default();
+        if crate::props::statq::too_big_for_refsem(&case) {
+            r.skipped = Some("more live arguments than the reference semantics enumerates (shrinker artefact)".into());
+            return r;
+        }
         if case.queries.len() != 1 {
             r.skipped = Some("needs exactly one query".into());
             return r;
